@@ -214,6 +214,51 @@ func families() []poly {
 		out = append(out, poly{b.name + " x 2^-7", tr(b.v, 1.0/128, 0, 0), b.fam})
 		out = append(out, poly{b.name + " x 2^9 centred", tr(tr(b.v, 1, -bbc(b.v).X, -bbc(b.v).Y), 512, 0, 0), b.fam})
 	}
+	// rectilinear plates (L, T, step) whose inner edges lie on the centre and quarter lines of the bounding
+	// square, at many sizes: whether the split coordinate of the 1.01-scaled square rounds to, above or below
+	// such an edge depends on the size, so every size is a different alignment of edge and split line
+	// (added after seeds C04-5 / C03-5)
+	el := []v2.Vec{{X: 0, Y: 0}, {X: 2, Y: 0}, {X: 2, Y: 1}, {X: 1, Y: 1}, {X: 1, Y: 2}, {X: 0, Y: 2}}
+	tee := []v2.Vec{{X: 0, Y: 0}, {X: 4, Y: 0}, {X: 4, Y: 1}, {X: 3, Y: 1}, {X: 3, Y: 4}, {X: 1, Y: 4}, {X: 1, Y: 1}, {X: 0, Y: 1}}
+	hub := []v2.Vec{{X: 0, Y: 0}, {X: 4, Y: 0}, {X: 4, Y: 2}, {X: 2, Y: 2}, {X: 2, Y: 4}, {X: 0, Y: 4}, {X: 0, Y: 3}, {X: 1, Y: 3}, {X: 1, Y: 1}, {X: 0, Y: 1}}
+	mir := func(vs []v2.Vec, sx, sy float64) []v2.Vec {
+		o := tr(vs, 1, 0, 0)
+		for i := range o {
+			o[i].X, o[i].Y = o[i].X*sx, o[i].Y*sy
+		}
+		if sx*sy < 0 {
+			return rev(o)
+		}
+		return o
+	}
+	// wide flat profiles (flange and hub, T on its side): the inner vertical edges are short, lie on the centre
+	// line of the bounding square and stay inside one deep quadtree cell
+	for _, w := range []float64{10, 12, 20, 24, 34, 40, 50, 64, 100} {
+		h := w / 2
+		fl := []v2.Vec{{X: 0, Y: 0}, {X: w, Y: 0}, {X: w, Y: 1}, {X: h, Y: 1}, {X: h, Y: 1.8}, {X: 0, Y: 1.8}}
+		ts := []v2.Vec{{X: 0, Y: 0}, {X: h, Y: 0}, {X: h, Y: 1}, {X: w, Y: 1}, {X: w, Y: 2}, {X: h, Y: 2}, {X: h, Y: 3}, {X: 0, Y: 3}}
+		for bi, b := range [][]v2.Vec{fl, ts} {
+			nm := []string{"flange-and-hub", "T-on-its-side"}[bi]
+			out = append(out, poly{fmt.Sprintf("%s width %g", nm, w), b, "wide-flat"})
+			out = append(out, poly{fmt.Sprintf("%s width %g mirrored in x", nm, w), mir(b, -1, 1), "wide-flat"})
+			out = append(out, poly{fmt.Sprintf("%s width %g transposed", nm, w), rev(func() []v2.Vec {
+				o := make([]v2.Vec, len(b))
+				for i, p := range b {
+					o[i] = v2.Vec{X: p.Y, Y: p.X}
+				}
+				return o
+			}()), "wide-flat"})
+		}
+	}
+	for _, k := range []float64{1, 3, 5, 6, 7, 9, 10, 11, 12.5, 13, 17, 19, 20, 23, 25, 27, 29, 31, 37, 40, 41, 50, 63, 77, 100, 0.1, 0.3, 0.7, 1.0 / 3} {
+		for bi, b := range [][]v2.Vec{el, tee, hub} {
+			nm := []string{"L", "T", "hub"}[bi]
+			out = append(out, poly{fmt.Sprintf("%s-plate x %g", nm, k), tr(b, k, 0, 0), "rectilinear-sizes"})
+			out = append(out, poly{fmt.Sprintf("%s-plate x %g mirrored in x", nm, k), mir(tr(b, k, 0, 0), -1, 1), "rectilinear-sizes"})
+			out = append(out, poly{fmt.Sprintf("%s-plate x %g mirrored in y", nm, k), mir(tr(b, k, 0, 0), 1, -1), "rectilinear-sizes"})
+			out = append(out, poly{fmt.Sprintf("%s-plate x %g rotated 180", nm, k), mir(tr(b, k, 0, 0), -1, -1), "rectilinear-sizes"})
+		}
+	}
 	return out
 }
 
